@@ -1456,3 +1456,62 @@ CONTROLS['C04'] += [
       "    del_stmt = CONSUMER_TBL.delete().where(sa.and_(\n        CONSUMER_TBL.c.id == consumer.id,\n"
       "        CONSUMER_TBL.c.generation == consumer.generation))", 'R4.6'),
 ]
+
+CONTROLS['C12'] += [
+    M('c12-cleanup-bypassed-for-conflicts', HA,
+      "            _update_consumers_and_create_allocations(context)\n        except Exception:\n"
+      "            with excutils.save_and_reraise_exception():\n                delete_consumers(new_consumers_created)",
+      "            _update_consumers_and_create_allocations(context)\n"
+      "        except exception.ConcurrentUpdateDetected:\n            raise\n        except Exception:\n"
+      "            with excutils.save_and_reraise_exception():\n                delete_consumers(new_consumers_created)",
+      'R12.3'),
+]
+CONTROLS['C04'] += [
+    reuse('C12', 'c12-cleanup-bypassed-for-conflicts', 'c04-cleanup-bypassed-for-conflicts', 'R4.3'),
+]
+CONTROLS['C05'] += [
+    B('c05-benign-reraise-clause', HA,
+      "            _update_consumers_and_create_allocations(context)\n        except Exception:\n"
+      "            with excutils.save_and_reraise_exception():\n                delete_consumers(new_consumers_created)",
+      "            _update_consumers_and_create_allocations(context)\n"
+      "        except exception.ConcurrentUpdateDetected:\n"
+      "            delete_consumers(new_consumers_created)\n            raise\n        except Exception:\n"
+      "            with excutils.save_and_reraise_exception():\n                delete_consumers(new_consumers_created)"),
+]
+CONTROLS['C13'] += [
+    M('c13-resources-intersection-restarts', RP,
+      "    for rc_name, amount in resources.items():\n"
+      "        rc_id = context.rc_cache.id_from_string(rc_name)\n"
+      "        rps_with_resource = res_ctx.get_providers_with_resource(\n"
+      "            context, rc_id, amount)\n"
+      "        rps_with_resource = (rp[0] for rp in rps_with_resource)\n"
+      "        query = query.where(rp.c.id.in_(rps_with_resource))\n",
+      "    if resources:\n        acc = set()\n"
+      "        for rc_name, amount in resources.items():\n"
+      "            rc_id = context.rc_cache.id_from_string(rc_name)\n"
+      "            ids = set(r[0] for r in res_ctx.get_providers_with_resource(\n"
+      "                context, rc_id, amount))\n"
+      "            if acc:\n                acc &= ids\n            else:\n                acc = ids\n"
+      "        if not acc:\n            return []\n"
+      "        query = query.where(rp.c.id.in_(acc))\n", 'R13.2'),
+    B('c13-benign-resources-intersection', RP,
+      "    for rc_name, amount in resources.items():\n"
+      "        rc_id = context.rc_cache.id_from_string(rc_name)\n"
+      "        rps_with_resource = res_ctx.get_providers_with_resource(\n"
+      "            context, rc_id, amount)\n"
+      "        rps_with_resource = (rp[0] for rp in rps_with_resource)\n"
+      "        query = query.where(rp.c.id.in_(rps_with_resource))\n",
+      "    if resources:\n        acc = None\n"
+      "        for rc_name, amount in resources.items():\n"
+      "            rc_id = context.rc_cache.id_from_string(rc_name)\n"
+      "            ids = set(r[0] for r in res_ctx.get_providers_with_resource(\n"
+      "                context, rc_id, amount))\n"
+      "            if acc is not None:\n                acc &= ids\n            else:\n                acc = ids\n"
+      "        if not acc:\n            return []\n"
+      "        query = query.where(rp.c.id.in_(acc))\n"),
+]
+CONTROLS['C14'] += [
+    M('c14-reparent-gate-same-tree-leak', RP,
+      "                        my_ids.parent_id != parent_ids.id and\n",
+      "                        my_ids.root_id != parent_ids.root_id and\n", 'R14.7'),
+]
